@@ -41,6 +41,136 @@ impl Tally {
     }
 }
 
+/// (a) the LAZY reader on the same kind of streams, consuming every value either with `skip()` or with `into_value()` /
+/// `read_value_into`; (b) encapsulated pixel data whose offset table / fragments have odd declared lengths, eager and lazy
+fn lazy_and_pixel(t: &mut Tally) {
+    use dicom_parser::dataset::lazy_read::{LazyDataSetReader, LazyDataSetReaderOptions};
+    use dicom_parser::dataset::LazyDataToken;
+    let ts = entries::EXPLICIT_VR_LITTLE_ENDIAN.erased();
+    let sent = element(Tag(0x0010, 0x0020), VR::LO, 2, b"ID");
+    // returns (token kinds, error, bytes consumed)
+    let run_lazy = |stream: &[u8], strategy: OddLengthStrategy, mode: u8| -> (Vec<String>, Option<String>, usize) {
+        let mut cur = Cursor::new(stream);
+        let mut toks = Vec::new();
+        let mut err = None;
+        {
+            let mut options = LazyDataSetReaderOptions::default();
+            options.odd_length = strategy;
+            let mut r = match LazyDataSetReader::new_with_ts_options(&mut cur, &ts, options) { Ok(r) => r, Err(e) => return (toks, Some(e.to_string()), 0) };
+            loop {
+                let tok = match r.advance() { None => break, Some(Err(e)) => { err = Some(e.to_string()); break; } Some(Ok(tok)) => tok };
+                match tok {
+                    LazyDataToken::ElementHeader(h) => toks.push(format!("H{}", h.tag)),
+                    LazyDataToken::SequenceStart { tag, .. } => toks.push(format!("S{}", tag)),
+                    LazyDataToken::PixelSequenceStart => toks.push("P".to_string()),
+                    LazyDataToken::ItemStart { .. } => toks.push("I".to_string()),
+                    LazyDataToken::ItemEnd => toks.push("i".to_string()),
+                    LazyDataToken::SequenceEnd => toks.push("s".to_string()),
+                    tok @ LazyDataToken::LazyValue { .. } => {
+                        if mode == 0 { if let Err(e) = tok.skip() { err = Some(e.to_string()); break; } toks.push("V".to_string()); }
+                        else { let mut buf = Vec::new(); match tok.read_value_into(&mut buf) { Ok(()) => toks.push(format!("V{}", buf.len())), Err(e) => { err = Some(e.to_string()); break; } } }
+                    }
+                    tok @ LazyDataToken::LazyItemValue { .. } => {
+                        if mode == 0 { if let Err(e) = tok.skip() { err = Some(e.to_string()); break; } toks.push("F".to_string()); }
+                        else { let mut buf = Vec::new(); match tok.read_value_into(&mut buf) { Ok(()) => toks.push(format!("F{}", buf.len())), Err(e) => { err = Some(e.to_string()); break; } } }
+                    }
+                    #[allow(unreachable_patterns)]
+                    _ => toks.push("?".to_string()),
+                }
+                if toks.len() > 64 { break; }
+            }
+        }
+        (toks, err, cur.position() as usize)
+    };
+    for strategy in [OddLengthStrategy::Accept, OddLengthStrategy::NextEven, OddLengthStrategy::Fail] {
+        let extra = if strategy == OddLengthStrategy::NextEven { 1usize } else { 0 };
+        for vr in [VR::OB, VR::UN, VR::LO, VR::UI, VR::US, VR::UL, VR::FD, VR::UT, VR::SV, VR::AT] {
+            for len in [1u32, 3, 7, 13] {
+                let mut body = vec![b'1'; len as usize];
+                body.extend(std::iter::repeat(b' ').take(extra));
+                let odd = element(Tag(0x0009, 0x1001), vr, len, &body);
+                // top level + inside an item of odd declared length, then the sentinel
+                let mut item = vec![0xFE, 0xFF, 0x00, 0xE0];
+                item.extend_from_slice(&((odd.len() - extra) as u32).to_le_bytes());
+                item.extend_from_slice(&odd);
+                let mut stream = odd.clone();
+                stream.extend_from_slice(&sent);
+                stream.extend_from_slice(&[0x08, 0x00, 0x15, 0x11, b'S', b'Q', 0, 0, 0xFF, 0xFF, 0xFF, 0xFF]);
+                stream.extend_from_slice(&item);
+                stream.extend_from_slice(&[0xFE, 0xFF, 0xDD, 0xE0, 0, 0, 0, 0]);
+                stream.extend_from_slice(&sent);
+                for mode in 0..2u8 {
+                    t.cases += 1;
+                    let label = format!("lazy reader ({}), {:?} VR {} declared length {}", if mode == 0 { "skip" } else { "read_value_into" }, strategy, vr.to_string(), len);
+                    let (toks, err, consumed) = run_lazy(&stream, strategy, mode);
+                    if strategy == OddLengthStrategy::Fail {
+                        if err.is_none() || !toks.is_empty() { t.fail(format!("{}: expected an error as the first token, got {:?} / {:?}", label, toks, err)); }
+                        continue;
+                    }
+                    let v = if mode == 0 { "V".to_string() } else { format!("V{}", len as usize + extra) };
+                    let v2 = if mode == 0 { "V".to_string() } else { "V2".to_string() };
+                    let want: Vec<String> = vec!["H(0009,1001)".to_string(), v.clone(), "H(0010,0020)".to_string(), v2.clone(), "S(0008,1115)".to_string(), "I".to_string(),
+                        "H(0009,1001)".to_string(), v, "i".to_string(), "s".to_string(), "H(0010,0020)".to_string(), v2];
+                    if err.is_some() || toks != want || consumed != stream.len() { t.fail(format!("{}: tokens {:?} (error {:?}, {} of {} bytes consumed), expected {:?}", label, toks, err, consumed, stream.len(), want)); }
+                }
+            }
+        }
+        // encapsulated pixel data: offset table of 0 / 4 / 8 bytes, two fragments, the first with an odd declared length
+        for table_len in [0usize, 4, 8] { for flen in [1u32, 3, 5] {
+            let mut stream = vec![0xE0, 0x7F, 0x10, 0x00, b'O', b'B', 0, 0, 0xFF, 0xFF, 0xFF, 0xFF];
+            stream.extend_from_slice(&[0xFE, 0xFF, 0x00, 0xE0]); stream.extend_from_slice(&(table_len as u32).to_le_bytes()); stream.extend(std::iter::repeat(0u8).take(table_len));
+            stream.extend_from_slice(&[0xFE, 0xFF, 0x00, 0xE0]); stream.extend_from_slice(&flen.to_le_bytes()); stream.extend(std::iter::repeat(0xAAu8).take(flen as usize + extra));
+            stream.extend_from_slice(&[0xFE, 0xFF, 0x00, 0xE0]); stream.extend_from_slice(&4u32.to_le_bytes()); stream.extend_from_slice(&[1, 2, 3, 4]);
+            stream.extend_from_slice(&[0xFE, 0xFF, 0xDD, 0xE0, 0, 0, 0, 0]);
+            stream.extend_from_slice(&sent);
+            let label = format!("pixel data, {:?}, offset table of {} bytes, first fragment of declared length {}", strategy, table_len, flen);
+            // eager
+            t.cases += 1;
+            let mut cur = Cursor::new(&stream[..]);
+            let mut options = DataSetReaderOptions::default();
+            options.odd_length = strategy;
+            let mut frags: Vec<usize> = Vec::new();
+            let mut table: Option<usize> = None;
+            let mut tail = Vec::new();
+            let mut err = None;
+            {
+                let reader = DataSetReader::new_with_ts_options(&mut cur, &ts, options).unwrap();
+                for tok in reader {
+                    match tok {
+                        Ok(DataToken::ItemValue(v)) => frags.push(v.len()),
+                        Ok(DataToken::OffsetTable(v)) => table = Some(v.len()),
+                        Ok(DataToken::ElementHeader(h)) => tail.push(format!("H{}", h.tag)),
+                        Ok(DataToken::PrimitiveValue(v)) => tail.push(format!("V{}", v.calculate_byte_len())),
+                        Ok(_) => {}
+                        Err(e) => { err = Some(e.to_string()); break; }
+                    }
+                    if tail.len() > 8 { break; }
+                }
+            }
+            if strategy == OddLengthStrategy::Fail {
+                if err.is_none() { t.fail(format!("{} (eager reader): an odd fragment length was accepted under the failing strategy (fragments {:?})", label, frags)); }
+            } else if err.is_some() || frags != vec![flen as usize + extra, 4] || table.unwrap_or(0) != table_len / 4 || tail != vec!["H(0010,0020)".to_string(), "V2".to_string()] || cur.position() as usize != stream.len() {
+                t.fail(format!("{} (eager reader): offset table {:?} entries, fragments {:?}, then {:?} (error {:?}, {} of {} bytes consumed)", label, table, frags, tail, err, cur.position(), stream.len()));
+            }
+            // lazy
+            for mode in 0..2u8 {
+                t.cases += 1;
+                let (toks, err, consumed) = run_lazy(&stream, strategy, mode);
+                if strategy == OddLengthStrategy::Fail {
+                    if err.is_none() { t.fail(format!("{} (lazy reader): an odd fragment length was accepted under the failing strategy: {:?}", label, toks)); }
+                    continue;
+                }
+                let tail_ok = toks.len() >= 2 && toks[toks.len() - 2] == "H(0010,0020)" && (toks[toks.len() - 1] == "V" || toks[toks.len() - 1] == "V2");
+                let frag_toks: Vec<&String> = toks.iter().filter(|x| x.starts_with('F')).collect();
+                let frag_ok = if mode == 0 { frag_toks.len() >= 2 } else { frag_toks.iter().rev().take(2).map(|x| x.as_str()).collect::<Vec<_>>() == vec!["F4", &format!("F{}", flen as usize + extra)[..]] };
+                if err.is_some() || !tail_ok || !frag_ok || consumed != stream.len() {
+                    t.fail(format!("{} (lazy reader, {}): tokens {:?} (error {:?}, {} of {} bytes consumed)", label, if mode == 0 { "skip" } else { "read_value_into" }, toks, err, consumed, stream.len()));
+                }
+            }
+        } }
+    }
+}
+
 fn main() {
     let mut t = Tally { cases: 0, bad: 0 };
     let ts = entries::EXPLICIT_VR_LITTLE_ENDIAN.erased();
@@ -143,5 +273,6 @@ fn main() {
             }
         }
     }
+    lazy_and_pixel(&mut t);
     println!("EXHAUSTIVE unit=C07.dataset cases={} mismatches={}", t.cases, t.bad);
 }
